@@ -281,6 +281,111 @@ Definition run (s : tsrc) (ccfg scfg : option N) (lat : N) : outcome (option sta
   end.
 
 (* ------------------------------------------------------------------------------------------
+   The two enforcement points separately, and calls whose response outlasts its head.
+
+   GrpcTimeout wraps the future that yields the http::Response, i.e. the response HEAD; the
+   Sleep lives in that future and is dropped with it, nothing wraps the body
+   (grpc_timeout.rs ResponseFuture::poll).  So the race is between the deadline and the head;
+   whatever follows the head (the messages of a server stream, or a late message of a unary call
+   from a peer that sends its headers early) is not raced against anything.
+
+   client: CChannel = tonic Endpoint/Channel (GrpcTimeout with Endpoint::timeout);
+           CRaw     = a client that sends the header but enforces nothing itself
+   server: STonic   = tonic Server (GrpcTimeout with Server::timeout under RecoverError);
+           SStub    = a server that ignores grpc-timeout
+   shape:  response head at tick sh_head, then sh_n messages sh_gap ticks apart, then the end.
+   ------------------------------------------------------------------------------------------ *)
+Inductive client_kind : Type := CChannel (ccfg : option N) | CRaw.
+Inductive server_kind : Type := STonic (scfg : option N) | SStub.
+Record shape : Type := mkShape { sh_streaming : bool; sh_head : N; sh_n : N; sh_gap : N }.
+
+(* what became of the server-side work up to the head *)
+Inductive fate : Type :=
+| NotStarted               (* cut before the handler was invoked *)
+| Done (t : N)             (* produced the head at tick t *)
+| Dropped (t : N).         (* its future was dropped at tick t *)
+
+Record call_obs : Type := mkCallObs {
+  co_head : option status;   (* None = head arrived OK, Some st = failed instead *)
+  co_head_tick : N;
+  co_msgs : N;               (* messages the caller received *)
+  co_final : option status;  (* None = OK *)
+  co_end_tick : N;
+  co_fate : fate;
+  co_produced : N            (* messages the server side produced *)
+}.
+
+(* server side up to the head: result, instant, fate *)
+Definition server_head (h : hm) (sk : server_kind) (sh : shape) : outcome (fut_result * N * fate) :=
+  match sk with
+  | STonic scfg =>
+      match layer_limit h scfg with
+      | Panic => Panic
+      | Ok sl =>
+          let '(r, f) := race (at_tick 0 0) (fire_of sl) (handler_ready (sh_head sh)) in
+          Ok (r, f,
+              match r with
+              | Completed => Done (sh_head sh)
+              | TimedOut => if f =? at_tick 0 0 then NotStarted else Dropped (tick_of f)
+              end)
+      end
+  | SStub => Ok (Completed, handler_ready (sh_head sh), Done (sh_head sh))
+  end.
+
+(* the server side is reset when the client gives up at tick t *)
+Definition fate_after_cancel (ft : fate) (t : N) : fate :=
+  match ft with
+  | NotStarted => NotStarted
+  | Done h => if h <=? t then Done h else Dropped t
+  | Dropped s => Dropped (N.min s t)
+  end.
+
+Definition unary_msgs (sh : shape) : N := if sh_streaming sh then sh_n sh else 1.
+
+Definition call (s : tsrc) (ck : client_kind) (sk : server_kind) (sh : shape) : outcome call_obs :=
+  match request_headers s with
+  | Panic => Panic
+  | Ok h =>
+      match server_head h sk sh with
+      | Panic => Panic
+      | Ok (rs, fs, ft) =>
+          (* what the server answers: the head, or the timeout status in a trailers-only response *)
+          match (match rs with
+                 | Completed => Ok None
+                 | TimedOut => over_the_wire timeout_status
+                 end) with
+          | Panic => Panic
+          | Ok answer =>
+              let client_race :=
+                match ck with
+                | CRaw => Ok (Completed, fs + 1)
+                | CChannel ccfg =>
+                    match layer_limit h ccfg with
+                    | Panic => Panic
+                    | Ok cl => Ok (race (at_tick 0 LATE) (fire_of cl) (fs + 1))
+                    end
+                end in
+              match client_race with
+              | Panic => Panic
+              | Ok (TimedOut, fc) =>
+                  let t := tick_of fc in
+                  Ok (mkCallObs (Some timeout_status) t 0 (Some timeout_status) t
+                                (fate_after_cancel ft t) 0)
+              | Ok (Completed, fc) =>
+                  let t := tick_of fc in
+                  match answer with
+                  | Some st => Ok (mkCallObs (Some st) t 0 (Some st) t ft 0)
+                  | None =>
+                      (* the head is in: nothing races the rest of the response *)
+                      let e := sh_head sh + sh_n sh * sh_gap sh in
+                      Ok (mkCallObs None t (unary_msgs sh) None (N.max t e) ft (sh_n sh))
+                  end
+              end
+          end
+      end
+  end.
+
+(* ------------------------------------------------------------------------------------------
    Specification vocabulary (gRPC over HTTP/2: Timeout = TimeoutValue TimeoutUnit,
    TimeoutValue = 1..8 ASCII digits, TimeoutUnit = H | M | S | m | u | n).
    Written by hand from the spec, independent of the generated tables.
@@ -341,4 +446,27 @@ Definition obs_run (s : tsrc) (ccfg scfg : option N) (lat : N) : tr :=
   | Panic => Nd [Nn 99]
   | Ok (None, t) => Nd [Nn Code_Ok; Bs []; Nn (t * NS_PER_TICK)]
   | Ok (Some st, t) => Nd [Nn (st_code st); Bs (st_msg st); Nn (t * NS_PER_TICK)]
+  end.
+
+Definition obs_status (st : option status) : list tr :=
+  match st with
+  | None => [Nn Code_Ok; Bs []]
+  | Some s => [Nn (st_code s); Bs (st_msg s)]
+  end.
+Definition obs_fate (f : fate) : tr :=
+  match f with
+  | NotStarted => Nd [Nn 0]
+  | Done t => Nd [Nn 1; Nn (t * NS_PER_TICK)]
+  | Dropped t => Nd [Nn 2; Nn (t * NS_PER_TICK)]
+  end.
+Definition obs_call (s : tsrc) (ck : client_kind) (sk : server_kind) (sh : shape) : tr :=
+  match call s ck sk sh with
+  | Panic => Nd [Nn 99]
+  | Ok o =>
+      (* a unary caller sees the head only together with the end of the call *)
+      Nd [Nd (obs_status (co_head o));
+          Nn ((if sh_streaming sh then co_head_tick o else co_end_tick o) * NS_PER_TICK);
+          Nn (co_msgs o);
+          Nd (obs_status (co_final o)); Nn (co_end_tick o * NS_PER_TICK);
+          obs_fate (co_fate o); Nn (co_produced o)]
   end.
